@@ -348,6 +348,21 @@ class Program:
                         for d in self.trait_impl_items().get((norm(m.group(2)), tgt.split("::")[-1]), ()):
                             if d in self.by_short:
                                 cg[b.short].add(d)
+            # function items used as values (`iter.find(is_executable_section)`, `.map(Self::helper)`): the callee will call them
+            for blk in b.blocks:
+                ops = []
+                t_ = blk["term"]
+                if t_["k"] == "call":
+                    ops += t_["args"]
+                for st in blk["stmts"]:
+                    if st["k"] == "assign":
+                        r_ = st["r"]
+                        ops += [r_[k_] for k_ in ("o", "a", "b") if isinstance(r_.get(k_), dict)] + list(r_.get("ops", []))
+                for op in ops:
+                    if isinstance(op, dict) and op.get("k") == "const" and op.get("fn"):
+                        fn = norm(op["fn"])
+                        if fn in self.by_short:
+                            cg[b.short].add(fn)
             # closures created here
             for blk in b.blocks:
                 for st in blk["stmts"]:
